@@ -20,6 +20,7 @@ pub fn run(ctx: &Ctx) -> i32 {
     if let Some(path) = &ctx.replay {
         return match read_replay(path).and_then(|rf| match rf.engine.as_str() {
             "timeout" => replay_one(ctx, &ToEngine, &rf),
+            "netsim" => replay_one(ctx, &crate::props::net::NetEngine { prop: "C19" }, &rf),
             "poolsim" => {
                 if std::env::var_os("VERIF_TRACE").is_some() {
                     if let Ok(case) = serde_json::from_value::<PoolCase>(rf.case.clone()) {
@@ -48,6 +49,9 @@ pub fn run(ctx: &Ctx) -> i32 {
     total.merge(run_generated(ctx, &ToEngine, "unit-random", strategy, ctx.cases(150_000, 5_000_000), 500));
     let max_ops = ctx.tier.pick(40, 120);
     total.merge(run_generated(ctx, &pool, "pool-with-timeouts", || case_strategy(PROFILE, max_ops, cfg_timeout_strategy()), ctx.cases(200_000, 5_000_000), 2000));
+    // end-to-end leg: the real client stack with `with_timeout` against slow handlers (netsim)
+    let e2e = crate::props::net::NetEngine { prop: "C19" };
+    total.merge(run_generated(ctx, &e2e, "netsim-client-timeout", || crate::props::net::c19_strategy(6), ctx.cases(8_000, 400_000), 300));
     finish(
         ctx,
         started,
@@ -58,7 +62,7 @@ pub fn run(ctx: &Ctx) -> i32 {
                 "tokio paused clock; the deadline counts from Service::call".into(),
                 "when the first poll happens after both the deadline and the inner completion either answer is accepted (tie)".into(),
             ],
-            min_class_fraction: vec![("timed-out", 0.1), ("inner-result", 0.1), ("request-timed-out", 0.1), ("timeout-while-dialing", 0.02), ("timeout-while-holding", 0.01), ("timeout-while-waiting-on-other", 0.005)],
+            min_class_fraction: vec![("timed-out", 0.1), ("inner-result", 0.1), ("request-timed-out", 0.1), ("timeout-while-dialing", 0.02), ("timeout-while-holding", 0.01), ("timeout-while-waiting-on-other", 0.005), ("e2e-request-timed-out", 0.005), ("e2e-request-completed", 0.005)],
         },
     )
 }
